@@ -368,10 +368,10 @@ func run(cfg Config, main func()) (*Result, chan struct{}) {
 		if s.last != nil && s.last.state == stRunning {
 			s.last.state = stBlocked
 		}
-		select {
-		case <-mainDone:
+		if s.all[0].state == stDone {
+			// main has sent its exit notice; its wrapper closes mainDone right after
+			<-mainDone
 			return res, mainDone
-		default:
 		}
 		var run []*G
 		for _, g := range s.all {
